@@ -19,7 +19,7 @@ EXPLANATION = (
     "Proof-level for the arithmetic clause: the expression DAG of quorum_threshold is extracted from the type-checked "
     "program; O1 decides f(S) == floor(2S/3)+1 for all S>=1 by quasi-linearity (one period + increment), O2 propagates "
     "intervals through every typed operation for 0<=S<2^31, O3/O4 pin S to the sum over all authorities and stake(unknown)=0, "
-    "O5 sibling agreement of both crates, O6 every user compares weight >= threshold. O7 (q>2n/3, q<=n-f, 2q-n>f) is the "
+    "O5 sibling agreement of both crates, O6 every user compares weight >= threshold, O8 what each user accumulates is the counted member's own stake, O9 (= C19.G1/G2) no authority counted twice. O7 (q>2n/3, q<=n-f, 2q-n>f) is the "
     "paper lemma, re-checked here by exhaustive residue arithmetic on n mod 3.")
 
 
@@ -289,6 +289,89 @@ def rules(P, R, prefix="C17"):
             R.judge(ok6, prefix + ".O6", key(f, "weight >= quorum_threshold()" + tag, i), n["sp"], how,
                     "quorum comparison %s is not `weight >= threshold` (or its negation `weight < threshold`)" % how)
 
+        # O8 what a user accumulates and compares with the threshold is a sum of stakes of the counted members
+        # ("two quorums share more than f stake" speaks about sets of authorities weighed by their own stake: a site that
+        # adds some other stake - its own, a constant - for each counted member forms "quorums" the lemma says nothing about)
+        import re
+        from .c12 import single_init, strip, waiter_ok
+        cmps = []
+        for (f, n) in users:
+            pm = f.parents()
+            par = pm.get(id(n))
+            uses = [n]
+            if par is not None and par["k"] == "slet" and par["pat"].get("k") == "pbind" and not par["pat"].get("mut"):
+                uses = [x for x in f.nodes() if x["k"] == "var" and x.get("id") == par["pat"]["id"]]
+            for u in uses:
+                up = pm.get(id(u))
+                while up is not None and (up["k"] == "ref" or (up["k"] == "un" and up.get("op") == "*")):
+                    u, up = up, pm.get(id(up))
+                if up is not None and up["k"] == "bin" and up["op"] in (">=", "<=", "<", ">"):
+                    other = up["l"] if up["r"] is u else up["r"]
+                    while other["k"] == "ref" or (other["k"] == "un" and other.get("op") == "*"):
+                        other = other["e"]
+                    cmps.append((f, other))
+        R.floor(prefix + ".O8", len(cmps), 6, "accumulators compared with the threshold" + tag)
+        for (f, acc), i in ordinal_keys(cmps, lambda x: x[0].path):
+            ctx = env.ctx(f)
+            at = ctx.term(acc)
+            if acc["k"] == "var":
+                scope = [f]
+                ws = [(f, x) for x in f.nodes() if x["k"] in ("assign", "assignop") and x["l"]["k"] == "var" and x["l"]["id"] == acc["id"]]
+            else:
+                scope = [g for g in prog.methods_of(f.self_ty) if not g.derived] if f.self_ty else [f]
+                ws = [(g, x) for g in scope for x in g.nodes() if x["k"] in ("assign", "assignop") and env.ctx(g).term(x["l"]) == at]
+            adds = [(g, x) for (g, x) in ws if not (x["k"] == "assign" and (x["r"].get("v") or {}).get("int") == 0)]
+            R.judge(bool(adds), prefix + ".O8", key(f, "accumulator `%s` has accumulation sites%s" % (at, tag), i), acc["sp"], "",
+                    "nothing is ever added to `%s`, which is compared with the quorum threshold (undecidable-shape)" % at)
+            for (g, w), j in ordinal_keys(adds, lambda x: x[0].path):
+                gctx = env.ctx(g)
+                ok8, why = False, ""
+                if not (w["k"] == "assignop" and w["op"].rstrip("=") == "+"):
+                    why = "`%s` is not an addition of a member's stake" % ir.pp(w, maxlen=100)
+                else:
+                    rt = gctx.term(w["r"])
+                    m = re.match(r"^(?:self\.committee|«Committee»)\.stake\((?P<K>.+)\)$", rt)
+                    if m:
+                        K = m.group("K")
+                        ok8 = (K.startswith("«") or "[*]" in K) and not K.startswith("self.name")
+                        why = "adds stake(%s)" % K if ok8 else "adds stake(%s): not the stake of the member being counted" % K
+                    elif w["r"]["k"] == "var" and gctx.defs.get(w["r"]["id"]) and gctx.defs[w["r"]["id"]][0][0] == "expr" \
+                            and list(gctx.defs[w["r"]["id"]][1]) == ["Some"]:
+                        src = strip(gctx.defs[w["r"]["id"]][0][1])
+                        sv = src.get("recv") if src["k"] == "mcall" and src["name"] == "next" else None
+                        while sv is not None and sv["k"] == "ref":
+                            sv = sv["e"]
+                        init = single_init(g, sv) if sv is not None and sv["k"] == "var" else None
+                        if init is None:
+                            why = "added value `%s` does not come from a once-initialised stream of acknowledgement futures" % ir.pp(w["r"])
+                        else:
+                            base, chain = iter_chain(init)
+                            maps = [c for c in chain if c[0] == "map"]
+                            others = [c[0] for c in chain if c[0] not in ("into_iter", "iter", "zip", "map", "collect")]
+                            if len(maps) != 1 or others or maps[0][1][0]["k"] != "closure":
+                                why = "stream is built by %s: outside the modelled vocabulary (undecidable-shape)" % [c[0] for c in chain]
+                            else:
+                                tail = maps[0][1][0]["body"]
+                                while tail["k"] == "block" and "expr" in tail:
+                                    tail = tail["expr"]
+                                tt = gctx.term(tail)
+                                mm = re.match(r"^(?P<W>[\w:]+)\((?P<H>.+)\[\*\]\.1,self\.committee\.stake\((?P<H2>.+)\[\*\]\.0\)\)$", tt)
+                                if not mm or mm.group("H") != mm.group("H2"):
+                                    why = "each future is `%s`: not waiter(element.1, self.committee.stake(element.0)) over ONE (name, handle) element" % tt[:300]
+                                else:
+                                    ok8, why = waiter_ok(prog, env, mm.group("W"))
+                                    Z = mm.group("H")
+                                    if ok8 and ".zip(" in Z:
+                                        # names and handles zipped together: both must stem from the same unzip of (name, address) pairs
+                                        zz = re.match(r"^(?P<A>.+)\.unzip\(\)\.0\.zip\(self\.network\.broadcast\((?P<B>.+?)\.unzip\(\)\.1,", Z)
+                                        ok8 = bool(zz) and zz.group("A") == zz.group("B")
+                                        why = "names and handles come from the same unzip of %s" % zz.group("A")[:80] if ok8 else \
+                                            "names are zipped with handles that were not obtained by broadcasting to the addresses of those same names: `%s`" % Z[:300]
+                    else:
+                        why = "added value `%s` is neither committee.stake(member) nor the result of an acknowledgement future" % rt[:200]
+                R.judge(ok8, prefix + ".O8", key(g, "`%s` accumulates the stake of the counted member%s" % (at, tag), j), w["sp"], why[:300],
+                        "the weight compared with the quorum threshold is not a sum of the counted members' own stakes: " + why)
+
 
 def stake_shape(ctx, tail):
     """authorities.get(name) mapped to .stake with None -> literal 0."""
@@ -331,3 +414,7 @@ def check(P, R, tier):
                       "quasi-linearity of expressions built from S, constants, + - *const /const (non-negative operands)"]
     R.assumptions = ["total stake below 2^31 (the property's quantifier)"]
     rules(P, R)
+    # "any two quorums share more than f stake" is a statement about SETS of authorities: where the node forms a quorum
+    # itself (the aggregators) an authority must be rejected as a duplicate before its stake is counted (C19.G1/G2)
+    from ..common import fold
+    fold(R, P, "c19", ("C19.G1", "C19.G2"), "C17.O9", 8)
